@@ -82,11 +82,9 @@ def snapshot_context(context: Context) -> Context:
     for render_ctx_dict_index in reversed(range(len(context.render_context.dicts))):
         render_ctx_dict = context.render_context.dicts[render_ctx_dict_index]
 
-        # This layer is already copied, reuse this and all before it
-        if isinstance(render_ctx_dict, CopiedDict):
-            # NOTE: +1 because we want to include the current layer
-            render_ctx_copies = context.render_context.dicts[: render_ctx_dict_index + 1] + render_ctx_copies
-            break
+        # NOTE: Unlike the layers of the Context above, these layers are copied even if they were already
+        # copied for an earlier snapshot. They hold the state of `{% block %}` tags (BlockContext), which keeps
+        # changing while the template that the earlier snapshot was made for is being rendered.
 
         # This holds info on what `{% block %}` blocks are defined
         render_ctx_dict_copy = CopiedDict(render_ctx_dict)
